@@ -185,7 +185,11 @@ T_RunEnd ==
     /\ active' = FALSE
     /\ UNCHANGED <<resps, refs, cur, mode, sentTo, eomSent, idx, nh, ne, hookPos, envPos, fail, ustart, uidx, ucb>>
 
-Next == T_Reset \/ T_Resp \/ T_Run \/ T_Hooks \/ T_Packet \/ T_Fail \/ T_Recv \/ T_Hook \/ T_Env
+\* stress summary (C14): in no trial did the error overtake the packages of the completely received
+\* packet, and in none were they missing
+T_ErrOrder == /\ IsEvent("ErrOrder") /\ (Judge \in {"C14", "ALL"} => E.overtaken = 0 /\ E.lost = 0)
+              /\ UNCHANGED <<resps, refs, cur, mode, sentTo, eomSent, idx, nh, ne, hookPos, envPos, ps, active, fail, ustart, uidx, ucb>>
+Next == T_ErrOrder \/ T_Reset \/ T_Resp \/ T_Run \/ T_Hooks \/ T_Packet \/ T_Fail \/ T_Recv \/ T_Hook \/ T_Env
         \/ T_UntilStart \/ T_Cb \/ T_UntilEnd \/ T_RecvErr \/ T_RunEnd
 Spec == Init /\ [][Next]_vars
 HW == HWOf(l)
